@@ -252,7 +252,7 @@ func (c *Ctx) typeSuccessors(t types.Type) []reachStep {
 			}
 		case *types.Interface:
 			for _, n := range c.implementers(o) {
-				if implementsInst(n, o) || o.TypeParams().Len() == 0 {
+				if implementsInst(n, o) {
 					out = append(out, reachStep{n, "implemented-by"})
 				}
 			}
